@@ -186,7 +186,8 @@ def hasMinimal : Hawk.Rex.Tre.Ast â†’ Bool
 real one by the P requests) builds, turned into an `Re` by `Tre.toRe` and matched case-sensitively (REG_ICASE is
 compiled into the tree) â€” whenever the old parser `parseRe` accepts the text too (it defines which constructs the
 specification covers: no back references, no minimal repetition, POSIX collating symbols) and the new path applies;
-otherwise the tree of `parseRe`.  -> (tree, icase flag to match with, "tre" | "old:<why>") -/
+otherwise the tree of `parseRe`.  -> (tree, icase flag to match with, "tre" (and inside `Ast.plain`, the scope of
+`ast_denotation_partial`) | "tre:outside-Ast.plain" | "old:<why>") -/
 def reOf (ic : Bool) (pat : List Char) (force : Bool := false) : P (Re Ã— Bool Ã— String) := do
   if force then
     -- flags bit 4: only the transcription of tre_parse (used to turn a parse-level difference into a failing subject)
@@ -200,7 +201,7 @@ def reOf (ic : Bool) (pat : List Char) (force : Bool := false) : P (Re Ã— Bool Ã
   | .ok p =>
     if hasMinimal p.ast then pure (old, ic, "old:minimal")
     else match Hawk.Rex.Tre.toRe ic p.ast with
-      | some r => pure (r, false, "tre")
+      | some r => pure (r, false, if p.ast.plain ic then "tre" else "tre:outside-Ast.plain")
       | none => pure (old, ic, "old:backref")
   | .error e => pure (old, ic, "old:" ++ e.name)
 
